@@ -215,4 +215,105 @@ theorem get_table (shape : List Nat) (writes : List (Write M)) (k : List Nat) (v
   rw [find?_fst_of_nodup writes.reverse k v (by rw [List.map_reverse]; exact List.nodup_reverse.mpr hn) (by simpa using hm)]
   rfl
 
+/-! ### the whole function -/
+
+theorem nodup_keys (p : Pot S) (c n : Nat) (hn : p.planes.length = n) :
+    ((List.range' 0 n).map (measurementIndex p c)).Nodup := by
+  by_cases h1 : n = 1
+  · subst h1; simp
+  · have hs : iSinglePlane (p.planes.length : Int) = false := by
+      simp only [iSinglePlane, decide_eq_false_iff_not]; omega
+    apply List.Nodup.map _ List.nodup_range'
+    intro a b hab
+    simp only [measurementIndex, hs, Bool.false_eq_true, if_false] at hab
+    simpa using List.append_cancel_left hab
+
+theorem total_extraShape (p : Pot S) :
+    (extraShape p).foldl (· + ·) 0
+      = (if p.ensAxis then p.configs.length else 0) + (if sPlaneAxis (p.planes.length : Int) then p.planes.length else 0) := by
+  unfold extraShape
+  cases p.ensAxis <;> cases sPlaneAxis (p.planes.length : Int) <;> simp
+
+
+theorem mNoTable_iff (t : Nat) (l : Int) (n : Nat) :
+    mNoTable (t : Int) l (n : Int) = true ↔ t = 1 ∧ l = (n : Int) - 1 := by
+  simp [mNoTable]
+
+theorem msd_eq (step : W → S → W) (detect : W → M) (w0 : W) (p : Pot S) (first : Int) (tl : List Int)
+    (h : p.planes = first :: tl) :
+    multisliceAndDetect step detect w0 p =
+      if mNoTable (((extraShape p).foldl (· + ·) 0 : Nat) : Int) ((first :: tl).getLastD 0) (p.nslices : Int) then
+        .ok (.final (if p.ensAxis then [1] else []) (detect (configLoop step detect p first w0 w0 0 p.configs).1))
+      else .ok (.table (extraShape p) (configLoop step detect p first w0 w0 0 p.configs).2) := by
+  simp only [multisliceAndDetect, h]
+
+theorem getLastD_natPlanes_single (ent : Bool) (ps : List Nat) (h : startIndex ent + ps.length = 1) :
+    (ent = true ∧ ps = [] ∧ (natPlanes ent ps).getLastD 0 = -1) ∨
+    (ent = false ∧ ∃ q, ps = [q] ∧ (natPlanes ent ps).getLastD 0 = (q : Int)) := by
+  cases ent
+  · right
+    simp only [startIndex, Bool.false_eq_true, if_false, Nat.zero_add] at h
+    match ps, h with
+    | [q], _ => exact ⟨rfl, q, rfl, rfl⟩
+  · left
+    simp only [startIndex, if_true] at h
+    have : ps = [] := List.eq_nil_of_length_eq_zero (by omega)
+    subst this
+    exact ⟨rfl, rfl, rfl⟩
+
+/-! ### several configurations (every configuration restarts from the incident wave) -/
+
+/-- writes of all configurations, in order -/
+def ensembleWrites (step : W → S → W) (detect : W → M) (p : Pot S) (ent : Bool) (ps : List Nat) (w0 : W)
+    (cfgs : List (List S)) (c0 : Nat) : List (Write M) :=
+  (cfgs.zipIdx c0).flatMap fun cc => configWrites step detect (measurementIndex p cc.2) ent ps w0 cc.1
+
+theorem configLoop_spec (step : W → S → W) (detect : W → M) (p : Pot S) (ent : Bool) (ps : List Nat) (first : Int)
+    (tl : List Int) (w0 : W) (hp : p.planes = natPlanes ent ps) (hf : natPlanes ent ps = first :: tl)
+    (hs : ps.Pairwise (· < ·)) :
+    ∀ (cfgs : List (List S)) (w : W) (c0 : Nat), (∀ cfg ∈ cfgs, ∀ q ∈ ps, q < cfg.length) →
+      (configLoop step detect p first w0 w c0 cfgs).2 = ensembleWrites step detect p ent ps w0 cfgs c0 := by
+  intro cfgs
+  induction cfgs with
+  | nil => intro w c0 _; simp [configLoop, ensembleWrites]
+  | cons cfg rest ih =>
+    intro w c0 hb
+    have hrun := runConfig_spec step detect p ent ps first tl c0 w0 cfg hp hf hs (hb cfg (by simp))
+    simp only [configLoop, hrun]
+    rw [ih (cfg.foldl step w0) (c0 + 1) (fun c hc => hb c (by simp [hc]))]
+    simp only [ensembleWrites, List.zipIdx_cons, List.flatMap_cons]
+
+/-- index lists written by the whole ensemble -/
+theorem keys_ensembleWrites (step : W → S → W) (detect : W → M) (p : Pot S) (ent : Bool) (ps : List Nat) (w0 : W)
+    (cfgs : List (List S)) (c0 : Nat) :
+    (ensembleWrites step detect p ent ps w0 cfgs c0).map Prod.fst
+      = (List.range' c0 cfgs.length).flatMap fun c =>
+          (List.range' 0 (startIndex ent + ps.length)).map (measurementIndex p c) := by
+  unfold ensembleWrites
+  rw [List.map_flatMap, ← List.zipIdx_map_snd c0 cfgs, List.flatMap_map]
+  apply List.flatMap_congr
+  intro cc _
+  exact keys_configWrites step detect _ ent ps w0 cc.1
+
+theorem mem_ensembleWrites (step : W → S → W) (detect : W → M) (p : Pot S) (ent : Bool) (ps : List Nat) (w0 : W)
+    (cfgs : List (List S)) (c : Nat) (hc : c < cfgs.length) (wr : Write M)
+    (h : wr ∈ configWrites step detect (measurementIndex p c) ent ps w0 cfgs[c]) :
+    wr ∈ ensembleWrites step detect p ent ps w0 cfgs 0 := by
+  unfold ensembleWrites
+  refine List.mem_flatMap.mpr ⟨(cfgs[c], c), ?_, h⟩
+  exact List.mk_mem_zipIdx_iff_getElem?.mpr (List.getElem?_eq_getElem hc)
+
+/-- with an ensemble axis, different configurations never write the same entry -/
+theorem nodup_keys_ensemble (p : Pot S) (hens : p.ensAxis = true) (n np : Nat) (hnp : p.planes.length = np) :
+    ((List.range' 0 n).flatMap fun c => (List.range' 0 np).map (measurementIndex p c)).Nodup := by
+  rw [List.nodup_flatMap]
+  refine ⟨fun c _ => ?_, ?_⟩
+  · exact nodup_keys p c np hnp
+  · refine List.Pairwise.imp (fun {a b} hne => ?_) (List.nodup_range' (s := 0) (n := n))
+    simp only [Function.onFun, List.disjoint_left, List.mem_map, not_exists, not_and]
+    rintro x ⟨e, _, rfl⟩ e' _ h
+    simp only [measurementIndex, hens, if_true, List.cons_append, List.nil_append, List.cons.injEq] at h
+    exact hne h.1.symm
+
+
 end AbtemVerif.Multislice
